@@ -142,7 +142,7 @@ def _reader_released(log):
     return bool(idx) and idx[0] > last_fail
 
 
-def check_terminate_broken(n_pending: int, n_procs: int, lookup_fails: bool) -> bool:
+def check_terminate_broken(n_pending: int, n_procs: int, lookup_fails: bool, cancel_siblings: bool = False) -> bool:
     """
     pre: 0 <= n_pending <= 3 and 0 <= n_procs <= 3
     post: _
@@ -150,6 +150,10 @@ def check_terminate_broken(n_pending: int, n_procs: int, lookup_fails: bool) -> 
     n_pending, n_procs = _conc(n_pending, 3), _conc(n_procs, 3)
     log = Log()
     fake, futs, procs, flags, cq, mgmt = _mk_manager(log, n_pending, n_procs)
+    if cancel_siblings and futs:
+        # "cancel the others on first failure": a done-callback of the first future cancels its still-pending
+        # siblings while the manager is half-way through failing them
+        futs[0].add_done_callback(lambda fut: [g.cancel() for g in futs[1:]])
     plist = list(procs.values())
     bpe = TerminatedWorkerError("x")
     kt = _kill_tree(log)
@@ -168,6 +172,10 @@ def check_terminate_broken(n_pending: int, n_procs: int, lookup_fails: bool) -> 
     if flags.broken is not bpe or not flags.shutdown:
         return False
     for i, f in enumerate(futs):
+        if cancel_siblings and i > 0:
+            if not f.cancelled():
+                return False  # cancelled by the user callback before the manager got to it: stays cancelled
+            continue
         # every unresolved future fails with that same error; the flag was set before the first one failed
         if f.exception(timeout=0) is not bpe or log.count("failed", i, True) != 1:
             return False
@@ -694,3 +702,38 @@ def _unused_released(n, how):
     # unreachable => its two Connection objects are collected, and a collected Connection closes its descriptor
     # (descriptor numbers are not probed: an unrelated thread may re-use a number at any time)
     return all(r() is None for r in refs)
+
+
+def check_shutdown_twice(wait2: bool, kill2: bool) -> bool:
+    """
+    post: _
+    """
+    # the real shutdown() called twice on the *same* object while the manager thread keeps running its pending work:
+    # first shutdown(wait=False), then shutdown(wait=wait2, kill_workers=kill2) - the second request is recorded,
+    # the manager thread is woken again (it is what makes a forced shutdown prompt) and joined when waited for
+    log = Log()
+    sl = FakeLock(log, "shutdown_lock")
+    flags = FakeFlags(sl)
+    joined = []
+
+    class _Mgr:
+        def join(self):
+            joined.append((flags.shutdown, flags.kill_workers, log.count("wakeup", True)))
+    mgr = _Mgr()
+    fake = NS(_flags=flags, _executor_manager_thread=mgr,
+              _executor_manager_thread_wakeup=FakeWakeup(log, sl), _shutdown_lock=sl,
+              _call_queue="q", _result_queue="r", _processes_management_lock="l")
+    saved = pe._threads_wakeups
+    pe._threads_wakeups = {mgr: "x"}
+    try:
+        pe.ProcessPoolExecutor.shutdown(fake, wait=False)
+        if log.count("wakeup", True) != 1 or joined or not flags.shutdown:
+            return False
+        pe.ProcessPoolExecutor.shutdown(fake, wait=wait2, kill_workers=kill2)
+    finally:
+        pe._threads_wakeups = saved
+    if flags.kill_workers != bool(kill2) or sl.held:
+        return False
+    if log.count("wakeup", True) != 2:
+        return False
+    return joined == ([(True, bool(kill2), 2)] if wait2 else [])
